@@ -210,8 +210,13 @@ Qed.
 (* ---- doctype names *)
 Definition dn_char (c : N) : bool :=
   pre_ok c && negb (memb c [9; 10; 12; 32]) && negb (memb c [62]) && negb (is_upper c).
-Definition doctype_name_ok (n : list N) : bool := match n with [] => false | _ => forallb dn_char n end.
-Definition doctype_toks (n : list N) : list token := bad_errs n ++ [TDoctype (Some n) None None false].
+Definition doctype_name_ok (n : list N) : bool := forallb dn_char n.
+(* the empty name is written <!DOCTYPE > and read back, with a parse error, as a doctype whose name is absent *)
+Definition doctype_toks (n : list N) : list token :=
+  match n with
+  | [] => [TError; TDoctype None None None false]
+  | _ => bad_errs n ++ [TDoctype (Some n) None None false]
+  end.
 
 Lemma memb1 : forall c x, (c =? x) = false -> memb c [x] = false.
 Proof. intros c x H. unfold memb. simpl. rewrite H. reflexivity. Qed.
@@ -646,6 +651,15 @@ Proof.
   do 2 eexists. split; [one; fin|reflexivity].
 Qed.
 
+Lemma dn_empty : forall b cu tk tn ta an av q o k, bg_clean b -> exists o' k',
+  xsteps (mkM b XBeforeDoctypeName false cu false None tk tn ta an av (62 :: q) o k)
+         (mkM b XData false 62 false None tk tn ta an av q o' k') /\
+  otoks o' = TDoctype None None None false :: TError :: otoks o.
+Proof.
+  intros b cu tk tn ta an av q o k CL. clean_b b CL.
+  do 2 eexists. split; [one; fin|reflexivity].
+Qed.
+
 (* <!DOCTYPE name> *)
 Theorem doctype_lex : forall n b cu tk tn ta an av rest o k,
   bg_clean b -> doctype_name_ok n = true -> exists o' k',
@@ -653,7 +667,10 @@ Theorem doctype_lex : forall n b cu tk tn ta an av rest o k,
            (mkM b XData false 62 false None tk tn ta an av rest o' k') /\
     otoks o' = rev (doctype_toks n) ++ otoks o.
 Proof.
-  intros n b cu tk tn ta an av rest o k CL OK. destruct n as [|n0 nr]; [discriminate|].
+  intros n b cu tk tn ta an av rest o k CL OK. destruct n as [|n0 nr].
+  { destruct (doctype_open b cu tk tn ta an av ([] ++ [62] ++ rest) o k (proj1 CL)) as (k1 & S1).
+    destruct (dn_empty b 32 tk tn ta an av rest o k1 CL) as (o2 & k2 & S2 & T2).
+    exists o2, k2. split; [eapply xsteps_trans; [exact S1|exact S2]|exact T2]. }
   unfold doctype_name_ok in OK. simpl in OK. apply andb_true_iff in OK. destruct OK as [O1 O2].
   destruct (doctype_open b cu tk tn ta an av ((n0 :: nr) ++ [62] ++ rest) o k (proj1 CL)) as (k1 & S1).
   destruct (dn_first b 32 tk tn ta an av n0 (nr ++ [62] ++ rest) o k1 CL O1) as (o2 & k2 & S2 & T2).
